@@ -52,7 +52,8 @@ def write_mod(song):
     chn = song['chn']
     tag = b"M.K." if chn == 4 else (b"%dCHN" % chn if chn < 10 else b"%dCH" % chn)
     b = bytearray(song.get('name', 'gen').encode()[:20].ljust(20, b"\0"))
-    b += b"square".ljust(22, b"\0") + struct.pack(">HBBHH", len(SAMPLE) // 2, 0, 64, 0, len(SAMPLE) // 2)
+    ls, ll = song.get('loop', (0, len(SAMPLE) // 2))       # loop start / length in words
+    b += b"square".ljust(22, b"\0") + struct.pack(">HBBHH", len(SAMPLE) // 2, 0, 64, ls, ll)
     for i in range(30):
         b += bytes(22) + struct.pack(">HBBHH", 0, 0, 0, 0, 1)
     orders = song['orders']
